@@ -27,4 +27,13 @@ for src in sys.argv[1:]:
         print(mid, "NOT CONFIRMED", r.stdout[-400:].replace("\n", " "), r.stderr[-300:].replace("\n", " ")); continue
     r = subprocess.run([sys.executable, os.path.join(V, "tools", "run_seeded.py"), "scheck", mid], capture_output=True, text=True)
     last = [l for l in r.stdout.split("\n") if l.startswith(mid)]
+    if last and "MISSED" in last[-1]:
+        # second chance: the cross-backend check, and the labelled check restricted to the configuration the demo needs
+        dc = meta.get("demo_cmd", "")
+        cfg = "w32" if "w32_backend" in dc else "m51" if "gf255_m51" in dc else "zz32" if "zz32" in dc else "clmul" if "gfb254_x86clmul" in dc else "avx2" if "avx2" in dc else None
+        extra = ["C18"] + (["%s@default+%s" % (prop, cfg)] if cfg else [])
+        r2 = subprocess.run([sys.executable, os.path.join(V, "tools", "run_seeded.py"), "scheck", mid] + extra, capture_output=True, text=True)
+        last += [l for l in r2.stdout.split("\n") if l.startswith(mid)]
+        print(" ; ".join(last), "|", meta.get("summary", "")[:150].replace("\n", " "), flush=True)
+        continue
     print(last[-1] if last else (mid + " ??? " + r.stdout[-300:] + r.stderr[-300:]), "|", meta.get("summary", "")[:150].replace("\n", " "), flush=True)
